@@ -8,7 +8,7 @@ from sa.effects import Effects
 from sa.model import Program, alpha, norm, walk_no_nested
 from sa.report import Results
 from sa.tables.reviewed import Reviewed
-from sa.util import callee, dotted
+from sa.util import Aliases, callee, dotted
 
 
 def setter_copy_rule(prog: Program, res: Results, rid: str, r1) -> None:
@@ -112,36 +112,62 @@ def run(prog: Program, _no_c10: bool = False) -> Results:
         params = set(f.params())
         value_param = next((p for p in f.params() if "value" in p), "value_expr")
         overwrites = []
+        al = Aliases(f.node)
         for n in cfg.nodes:
             a = n.ast
             if isinstance(a, ast.Assign) and isinstance(a.targets[0], ast.Attribute) and a.targets[0].attr == "value" \
                     and isinstance(a.targets[0].value, ast.Name) and norm(a.value) == value_param:
                 overwrites.append((n, a.targets[0].value.id))
         for n, b in overwrites:
-            # classify how b was located: by path (attrset lookups) vs fallback targets (outer/sibling found by *name of the reference*)
-            located_by = [d for d in ast.walk(f.node) if isinstance(d, ast.Assign) and any(isinstance(t, ast.Name) and t.id == b for t in d.targets)]
+            # classify how b was located: by path (attrset lookups) vs fallback targets (outer/sibling found by *name of the
+            # reference*); plain copies between locals (`chosen = inherited_binding`) are followed to the definitions they copy
             ref_names = {norm(d.targets[0]) for d in ast.walk(f.node) if isinstance(d, ast.Assign) and isinstance(d.targets[0], ast.Name)
                          and isinstance(d.value, ast.Attribute) and d.value.attr == "name" and norm(d.value.value).endswith(".value")}
-            fallback_target = any(
-                isinstance(d.value, ast.Call) and callee(d.value) == "_find_binding" and len(d.value.args) > 1 and norm(d.value.args[1]) in ref_names
-                for d in located_by)
-            is_loop_var = any(isinstance(l, ast.For) and norm(l.target) == b for l in ast.walk(f.node))
-            if fallback_target or is_loop_var:
+            roots: dict = {}  # name -> non-copy definitions
+            todo, seen_names = [b], set()
+            while todo:
+                x = todo.pop()
+                if x in seen_names:
+                    continue
+                seen_names.add(x)
+                for d in ast.walk(f.node):
+                    if isinstance(d, ast.Assign) and any(isinstance(t, ast.Name) and t.id == x for t in d.targets):
+                        if isinstance(d.value, ast.Name):
+                            todo.append(d.value.id)
+                        elif isinstance(d.value, ast.Constant) and d.value.value is None:
+                            continue
+                        else:
+                            roots.setdefault(x, []).append(d)
+                    elif isinstance(d, ast.For) and norm(d.target) == x:
+                        roots.setdefault(x, []).append(d)
+                if x in params:
+                    roots.setdefault(x, []).append("param")
+
+            def is_fallback(d):
+                if isinstance(d, ast.For):
+                    return True
+                return isinstance(d, ast.Assign) and isinstance(d.value, ast.Call) and callee(d.value) == "_find_binding" and len(d.value.args) > 1 and (
+                    norm(d.value.args[1]) in ref_names or al.norm(d.value.args[1]).endswith(".value.name"))
+
+            by_path = {x: [d for d in ds if not is_fallback(d)] for x, ds in roots.items()}
+            by_path = {x: ds for x, ds in by_path.items() if ds}
+            if not by_path:
                 continue
             r2.instances += 1
 
-            def not_ref(a_, truth, _b=b):
-                return isinstance(a_, ast.Call) and callee(a_) == "isinstance" and norm(a_.args[0]) == f"{_b}.value" \
+            def not_ref(a_, truth, _names=tuple(by_path)):
+                return isinstance(a_, ast.Call) and callee(a_) == "isinstance" and any(al.norm(a_.args[0]) == f"{x}.value" for x in _names) \
                     and "Identifier" in norm(a_.args[1]) and truth is False
 
             e_not = edges_establishing(cfg, not_ref)
             attempts = [t for t in cfg.nodes if t.ast is not None and t.kind in ("test", "stmt") and
-                        any(isinstance(c, ast.Call) and callee(c) == "_assign_through_identifier" and c.args and norm(c.args[0]) == f"{b}.value"
+                        any(isinstance(c, ast.Call) and callee(c) == "_assign_through_identifier" and c.args
+                            and any(al.norm(c.args[0]) == f"{x}.value" for x in by_path)
                             for c in ast.walk(t.ast))]
             ok = bool(e_not) and bool(attempts) and cfg.all_paths_pass(n, cut_edges=e_not, cut_nodes=attempts)
             r2.ob(ok, {"site": key, "overwrite": norm(n.ast), "assign_through_attempt": [norm(t.ast)[:60] for t in attempts]})
             if not ok:
-                how = sorted({callee(d.value) for d in located_by if isinstance(d.value, ast.Call)}) or ["loop/param"]
+                how = sorted({callee(d.value) for ds in by_path.values() for d in ds if isinstance(d, ast.Assign) and isinstance(d.value, ast.Call)}) or ["loop/param"]
                 res.add("R-C11-2", (key, "overwrite without assign-through", "located by " + ",".join(str(h) for h in how)), f.loc(n.ast),
                         f"{key}: `{norm(n.ast)}` overwrites a binding located by path without first trying to assign through when its "
                         f"value is a reference: `set a.b 2` on `let v = 1; in {{ a.b = v; }}` replaces the reference instead of updating `v`")
